@@ -263,9 +263,32 @@ def main(argv=None):
                     pass
         return idx, (r.status, r.backend, r.time, r.detail, r.file)
 
-    with ThreadPoolExecutor(max_workers=int(os.environ.get("PYVC_WORKERS", "12"))) as ex:
-        for idx, res in ex.map(work, jobs):
-            results[idx] = res
+    # z3's Python objects are not thread-safe: every use of the z3 API by a worker happens under `lock`, and the cyclic
+    # garbage collector (which could free z3 objects from whichever thread happens to allocate) is off while the workers
+    # run - two runs hung at 100 % CPU with no solver process before this was done
+    import gc
+
+    progress = {"t": time.time(), "done": False}
+
+    def watchdog():
+        # a hang must not look like a pass or a violation: no finished obligation for 15 minutes -> exit 3
+        while not progress["done"]:
+            time.sleep(10)
+            if time.time() - progress["t"] > 900:
+                print(f"CHECKER-ERROR no obligation finished for 15 minutes while discharging {prop}: giving up (exit 3)", flush=True)
+                os._exit(3)
+
+    threading.Thread(target=watchdog, daemon=True).start()
+    gc.collect()
+    gc.disable()
+    try:
+        with ThreadPoolExecutor(max_workers=int(os.environ.get("PYVC_WORKERS", "12"))) as ex:
+            for idx, res in ex.map(work, jobs):
+                results[idx] = res
+                progress["t"] = time.time()
+    finally:
+        gc.enable()
+        progress["done"] = True
     solver_time = sum(r[2] for r in results.values())
 
     # ---------------------------------------------------------------- verdicts
